@@ -15,7 +15,7 @@ JUST = ["", "l", "c", "r", "d", "j"]
 
 def build(tier, seed):
     quick = tier == "quick"
-    T = 120 if quick else 600
+    T = 240 if quick else 600
     obs = []
     # O1: the text templates, compositionally: the two formatting fragments for every attribute value, then the five
     # templates with the three parts as tokens of the depth just established
@@ -239,12 +239,12 @@ class Enc:
         doc.df = [NS(shape=(1, 1)), NS(shape=(1, 1))]
     if path == 2:
         doc.rtf_figure.figures = ["f"] * concrete_int(nfig, 1, 3)
-    saved = figmod.rtf_read_figure
-    figmod.rtf_read_figure = lambda paths: ([b"x"] * len(paths), ["png"] * len(paths))
+    saved = swapped((figmod.rtf_read_figure, lambda paths: ([b"x"] * len(paths), ["png"] * len(paths))))
+    saved.__enter__()
     try:
         out = me.encode(doc)
     finally:
-        figmod.rtf_read_figure = saved
+        saved.__exit__()
     if not (out.startswith("{\\rtf1") and out.endswith("}") and lex_ok(out)):
         return False
     d = 0
@@ -291,8 +291,8 @@ def mkh(kind):
     doc = NS(rtf_column_header=headers, rtf_body=NS(as_colheader=as_colheader, col_rel_width=[1.0, 1.0]),
              rtf_page=NS(border_first="double" if has_pf else None, col_width=6.0))
     page = NS(is_first_page=first, data=minipl.Frame({"a": ["1"], "b": ["2"]}), table_attrs=NS(col_rel_width=[1.0, 1.0]))
-    saved = rmod.pl
-    rmod.pl = minipl.pl
+    saved = minipl.substituted()
+    saved.__enter__()
     try:
         with minipl.substituted(esmod):
             try:
@@ -300,7 +300,7 @@ def mkh(kind):
             except ValueError:
                 return True
     finally:
-        rmod.pl = saved
+        saved.__exit__()
     text = "".join(out)
     rows = text.count("\\row")
     cx = len(re.findall(r"\\cellx", text))
@@ -341,7 +341,8 @@ def mkh(kind):
             pre=["1 <= vr <= 3 and 1 <= vc <= 2", "1 <= h <= 3 and 1 <= w <= 2", "0 <= rs <= 3"], timeout=T,
             header=HDR1 + "from rtflite.pagination.processor import PageFeatureProcessor\nfrom rtflite.attributes import BroadcastValue\n"
                           "BODIES = {}\nfor _r in (1, 2, 3):\n    for _c in (1, 2, 3):\n        _p = [['single' if (i + j) %% 2 == 0 else '' for j in range(_c)] for i in range(_r)]\n"
-                          "        BODIES[(_r, _c)] = rtf.RTFBody(**{%r: _p})\n" % ("border_top" if top else "border_bottom"),
+                          "        _f = [['b' if (i + j) %% 2 == 0 else '' for j in range(_c)] for i in range(_r)]\n"
+                          "        BODIES[(_r, _c)] = rtf.RTFBody(**{%r: _p, 'text_format': _f, 'text_font_size': [[8 + i for j in range(_c)] for i in range(_r)]})\n" % ("border_top" if top else "border_bottom"),
             body=r'''
     VR, VC, H, W = concrete_int(vr, 1, 3), concrete_int(vc, 1, 2), concrete_int(h, 1, 3), concrete_int(w, 1, 2)
     RS = concrete_int(rs, 0, 3)
@@ -351,7 +352,7 @@ def mkh(kind):
     page = NS(table_attrs=body, data=FakeFrame({"c%d" % j: ["x"] * H for j in range(W)}), is_first_page=(RS == 0), is_last_page=last,
               component_borders={}, row_start=RS, needs_header=True)
     attrs = PageFeatureProcessor()._apply_pagination_borders(doc, page)
-    for name in ("border_top", "border_bottom"):
+    for name in ("border_top", "border_bottom", "text_format", "text_font_size"):
         g = BroadcastValue(value=getattr(attrs, name), dimension=(H, W)).to_list()
         if len(g) != H or any(len(r) != W for r in g):
             return False
@@ -363,7 +364,7 @@ def mkh(kind):
             bounds="a %s pattern of shape 1..3 x 1..2 recycled over a page of 1..3 rows x 1..2 columns that starts at table row 0..3 (first or later page, "
                    "last or not; dividing or not; solver-enumerated shapes)" % ("border_top" if top else "border_bottom"),
             what="every accepted attribute shape - including recycled patterns that do not divide the table - goes through the per-page "
-                 "border pass without an exception and yields a full border grid"))
+                 "border pass without an exception and yields full grids for the borders and for per-row text attributes"))
     meta = {
         "explanation": "Whole-pipeline crash freedom runs through pydantic-core and polars and cannot be encoded; what is decided is "
                        "that every emitter produces a balanced, lexically valid fragment for EVERY attribute value (numbers kept "
